@@ -446,6 +446,8 @@ func TestVerifC09Overload(t *testing.T) {
 // TestVerifC09Stress is built with -race: ingest workers (the real pipeline) with duplicate deliveries,
 // connection-handler lookups + activation, the sweeper over back-dated registrations and configuration
 // reloads, all free-running.  The race detector is the monitor; end-state invariants are checked too.
+var statsReports atomic.Int64
+
 func TestVerifC09Stress(t *testing.T) {
 	rec := kit.NewRec("C09", "stress")
 	defer rec.Close()
@@ -458,6 +460,25 @@ func TestVerifC09Stress(t *testing.T) {
 		var wg sync.WaitGroup
 		wg.Add(1)
 		done := make(chan struct{})
+		// the statistics reporter is one more concurrent actor of the station (main.go registers the manager as a
+		// statistics module; the Stats singleton reports every 5 s): here it reports every 20 ms, from before the
+		// pipeline starts until the round is over
+		Stat().AddStatsModule(e.rm, false)
+		statsStop := make(chan struct{})
+		statsDone := make(chan struct{})
+		go func() {
+			defer close(statsDone)
+			for {
+				select {
+				case <-statsStop:
+					return
+				default:
+				}
+				Stat().PrintStats(false)
+				statsReports.Add(1)
+				time.Sleep(20 * time.Millisecond)
+			}
+		}()
 		go func() { e.rm.HandleRegUpdates(ctx, regChan, &wg); close(done) }()
 		const nRegs = 120
 		rng := kit.Rand(fmt.Sprint("c09-stress-", round))
@@ -575,6 +596,8 @@ func TestVerifC09Stress(t *testing.T) {
 			close(regChan)
 			<-done
 		}
+		close(statsStop)
+		<-statsDone
 		// what the detector saw, per registration (phantom, port): the first message must be the New
 		// announcement - an Update (activation) must not overtake it - and New must not be repeated
 		type annKey struct {
